@@ -192,8 +192,10 @@ CHECKS['C10'] = dict(
           'with only one index matrix (a regular grid in any storage permutation) and every size of the other side >= 2, '
           'the call succeeds and the axes of the missing side are flattened in C order, i.e. taken slowest-to-fastest '
           '(make_indices_matrix is the grid whose first dimension is fastest, its sort order is the identity, '
-          'transpose_reshape_core). PARTIAL: squeezed size-1 axes and a missing side containing a size-1 dimension '
-          '(which make_indices_matrix refuses unless it is the only one) are modelled executably and decided by the '
+          'transpose_reshape_core); flatten_squeezed_pos / flatten_squeezed_spec - a one-point placeholder side whose axis '
+          'is absent from the N-D array (the form reduce() hands over when a whole side is reduced) gives a 1 x M / N x 1 '
+          'matrix holding the array element at the indices of each column / row. PARTIAL: a missing side containing a '
+          'size-1 dimension (which make_indices_matrix refuses unless it is the only one) is decided by the '
           'oracle and the model comparison, not by a theorem. Correspondence: h5py / numpy / '
           'dask ancillaries, dask data, kept or squeezed size-1 axes, one-sided requests, all three branches.'),
     note=COMMON_NOTE + 'numpy/dask transpose/reshape semantics are modelled by NDArr (C order) and checked by the correspondence.',
